@@ -3,7 +3,9 @@
 //! Cases are the constructors of `case` in coq/theories/C11/Run.v.
 //! Oracle (independent of the model): sign-then-verify accepts; every single-bit
 //! tampering of message / public key / signature, S + L, and a foreign key reject;
-//! from_bytes accepts exactly the 1 of 32 clamping-bit combinations; sizes.
+//! from_bytes / TryFrom<[u8;64]> accept exactly the clamped keys on ALL 256 x 256 (byte 0, byte 31) pairs
+//! (several fillers; the whole grid also goes through the model as a bitmap); sizes;
+//! honest keys whose public key encoding is close to the non-canonical range still verify.
 use pallas_crypto::key::ed25519::{PublicKey, SecretKey, SecretKeyExtended, Signature};
 use std::convert::TryFrom;
 use verif_harness::*;
@@ -107,21 +109,94 @@ fn triple(cx: &mut Cx, rng: &mut Rng, i: usize) {
     }
 }
 
+/// y coordinate of the encoding in the 19-value window below 2^255 except for the middle bytes:
+/// byte 31 low 7 bits all set and byte 0 >= 0xed (y >= p would need bytes 1..=30 all 0xff as well)
+fn near_noncanonical(e: &[u8]) -> bool { e[31] & 0x7f == 0x7f && e[0] >= 0xed }
+fn near_noncanonical_ff(e: &[u8]) -> bool { near_noncanonical(e) && e[1..31].iter().any(|b| *b == 0xff) }
+fn counter_key(c: u64) -> [u8; 32] { let mut sk = [0u8; 32]; sk[..8].copy_from_slice(&c.to_le_bytes()); sk }
+
+/// honest keys / signatures whose point encodings sit next to the non-canonical range: an over-eager
+/// canonicity pre-check (in verify or in a key constructor) would reject them. Seeds found once with `--find-near`.
+const NEAR_PK_SEEDS: [u64; 4] = [8848, 12233, 17404, 18137];
+/// (key counter, message counter): the signature's R has the shape
+const NEAR_R_SEEDS: [(u64, u64); 3] = [(1, 21982), (1, 41881), (1, 48287)];
+
+fn targeted(cx: &mut Cx, rng: &mut Rng) {
+    let mut keys: Vec<([u8; 32], Vec<u8>, &str)> = vec![];
+    for c in NEAR_PK_SEEDS { keys.push((counter_key(c), rng.bytes(20), "near-noncanonical-pk")); }
+    for (c, mc) in NEAR_R_SEEDS { keys.push((counter_key(c), mc.to_le_bytes().to_vec(), "near-noncanonical-R")); }
+    // cheaper shapes found afresh on every run: top seven bits of y set (1/128); low byte >= 0xed and a 0xff byte
+    let mut found = 0; let mut tries = 0;
+    while found < 2 && tries < 3000 { tries += 1;
+        let mut sk = [0u8; 32]; sk.copy_from_slice(&rng.bytes(32));
+        let pk = <[u8; 32]>::from(SecretKey::from(sk).public_key());
+        if pk[31] & 0x7f == 0x7f { keys.push((sk, rng.bytes(8), "pk-top-bits-set")); found += 1; }
+    }
+    for (j, (sk, m, tag)) in keys.iter().enumerate() {
+        let r = guard_total(|| { let k = SecretKey::from(*sk); (<[u8; 32]>::from(k.public_key()), k.sign(m)) });
+        let (pk, sig) = match r { Out::Ok((pk, sg)) => (pk.to_vec(), sg.as_ref().to_vec()), _ => { emit_oracle_fail("sign-panic", &format!("sk={} msg={}", hex(sk), hex(m))); continue; } };
+        let shape = if near_noncanonical_ff(&pk) { "pk:0x7f..ff..>=0xed" } else if near_noncanonical_ff(&sig[..32]) { "R:0x7f..ff..>=0xed" } else if near_noncanonical(&pk) || pk[31] & 0x7f == 0x7f { "pk:top bits" } else { "none" };
+        let ok = check_verify("sign-verify", &format!("honest key with encoding near the non-canonical range ({})", shape), &pk, m, &sig, Some(true));
+        // the public key must also survive the byte-level constructors
+        if PublicKey::try_from(&pk[..]).map(|p| p.as_ref() != &pk[..]).unwrap_or(true) { emit_oracle_fail("try-from-size", &format!("PublicKey::try_from rejected or altered {}", hex(&pk))); }
+        cx.triples += 1;
+        if j % 2 == 0 || cx.thorough {
+            cx.case(tag, format!("(CStd {} {} {} {})", xb(sk), xb(m), xb(&pk), xb(&sig)));
+            cx.verify_case(tag, &pk, m, &sig, ok);
+        }
+    }
+}
+
+fn find_near() {
+    // one-off search used to produce NEAR_PK_SEEDS / NEAR_R_SEEDS
+    let mut npk = 0; let mut c = 0u64;
+    while npk < 4 { let pk = <[u8; 32]>::from(SecretKey::from(counter_key(c)).public_key()); if near_noncanonical_ff(&pk) { println!("PK {} {}", c, hex(&pk)); npk += 1; } c += 1; }
+    let mut nr = 0; let mut mc = 0u64; let k = SecretKey::from(counter_key(1));
+    while nr < 3 { let sg = k.sign(mc.to_le_bytes()); if near_noncanonical_ff(&sg.as_ref()[..32]) { println!("R 1 {} {}", mc, hex(sg.as_ref())); nr += 1; } mc += 1; }
+}
+
 fn main() {
     let args = args();
+    if args.extra.iter().any(|a| a == "--find-near") { find_near(); return; }
     let mut rng = Rng::new(args.seed);
     let mut cx = Cx { oracle_only: args.oracle_only, thorough: args.tier == "thorough", triples: 0, tamper_checks: 0 };
 
-    // ---- all 2^3 * 2^2 clamping-bit combinations (every run), other bits random
-    for low in 0..8u8 { for hi in 0..4u8 {
-        let mut esk = [0u8; 64]; esk.copy_from_slice(&rng.bytes(64));
-        esk[0] = (esk[0] & 0xf8) | low; esk[31] = (esk[31] & 0x3f) | (hi << 6);
+    // ---- EXHAUSTIVE: all 256 x 256 (byte 0, byte 31) pairs, four fillers for the other 62 bytes (every run).
+    // Oracle on every pair (from_bytes and TryFrom); for two fillers the whole accept/reject grid goes through
+    // the model as 256 bitmaps (row b0, bit b31), so the tie with check_structure is exhaustive as well.
+    let fillers: Vec<(Vec<u8>, bool)> = vec![(vec![0u8; 64], true), (vec![0xffu8; 64], false), (rng.bytes(64), true), (rng.bytes(64), false)];
+    let mut pairs = 0u64;
+    for (filler, to_model) in &fillers {
+        let mut rows: Vec<String> = vec![];
+        for b0 in 0..=255u8 {
+            let mut row = [0u8; 32]; // 256-bit little-endian bitmap
+            for b31 in 0..=255u8 {
+                let mut esk = [0u8; 64]; esk.copy_from_slice(filler); esk[0] = b0; esk[31] = b31;
+                let ok = SecretKeyExtended::from_bytes(esk).is_ok();
+                let ok2 = SecretKeyExtended::try_from(esk).is_ok();
+                let want = b0 & 0b111 == 0 && b31 & 0b1100_0000 == 0b0100_0000;
+                if ok != want || ok2 != want {
+                    emit_oracle_fail("clamping-check", &format!("esk={} byte0={:#04x} byte31={:#04x} from_bytes ok={} try_from ok={} expected={}", hex(&esk), b0, b31, ok, ok2, want));
+                }
+                if ok { row[b31 as usize / 8] |= 1 << (b31 % 8); }
+                pairs += 1;
+            }
+            let mut be = row; be.reverse();
+            rows.push(format!("0x{}", hex(&be)));
+        }
+        if *to_model { cx.case("from-bytes-grid-65536", format!("(CFromBytesGrid {} [{}])", xb(filler), rows.join(";"))); }
+    }
+    emit_stat("clamp_pairs_oracle", pairs);
+    // named boundary bytes individually through the model as well (readable replay on a mismatch)
+    for &b31 in &[0x00u8, 0x3f, 0x40, 0x41, 0x7f, 0x80, 0x81, 0xbf, 0xc0, 0xff] {
+        let b0 = *rng.pick(&[0u8, 1, 2, 4, 7, 8, 0xf8, 0xf9, 0xff]);
+        let mut esk = [0u8; 64]; esk.copy_from_slice(&rng.bytes(64)); esk[0] = b0; esk[31] = b31;
         let ok = SecretKeyExtended::from_bytes(esk).is_ok();
-        let ok2 = SecretKeyExtended::try_from(esk).is_ok();
-        let want = low == 0 && hi == 1;
-        if ok != want || ok2 != want { emit_oracle_fail("clamping-check", &format!("esk={} byte0&7={} byte31>>6={} from_bytes ok={} try_from ok={} expected={}", hex(&esk), low, hi, ok, ok2, want)); }
-        cx.case("from-bytes-clamping", format!("(CFromBytes {} {})", xb(&esk), coq_bool(ok)));
-    } }
+        cx.case("from-bytes-boundary", format!("(CFromBytes {} {})", xb(&esk), coq_bool(ok)));
+        let mut esk0 = [0u8; 64]; esk0[31] = b31;   // all other bytes zero
+        let ok0 = SecretKeyExtended::from_bytes(esk0).is_ok();
+        cx.case("from-bytes-boundary", format!("(CFromBytes {} {})", xb(&esk0), coq_bool(ok0)));
+    }
     // the other bits never matter
     for _ in 0..(if cx.thorough { 2000 } else { 200 }) {
         let mut esk = [0u8; 64]; esk.copy_from_slice(&rng.bytes(64));
@@ -129,7 +204,7 @@ fn main() {
         let ok = SecretKeyExtended::from_bytes(esk).is_ok();
         let want = esk[0] & 7 == 0 && esk[31] >> 6 == 1;
         if ok != want { emit_oracle_fail("clamping-check", &format!("esk={} from_bytes ok={} expected={}", hex(&esk), ok, want)); }
-        if rng.below(10) == 0 { cx.case("from-bytes-random", format!("(CFromBytes {} {})", xb(&esk), coq_bool(ok))); }
+        if rng.below(25) == 0 { cx.case("from-bytes-random", format!("(CFromBytes {} {})", xb(&esk), coq_bool(ok))); }
     }
     // ---- sizes
     for l in [0usize, 1, 31, 32, 33, 63, 64, 65, 128] {
@@ -176,6 +251,7 @@ fn main() {
         if j < (if cx.thorough { 24 } else { 4 }) { cx.verify_case("verify-random", &pk, &m, &sg, a); }
     }
 
+    targeted(&mut cx, &mut rng);
     for i in 0..args.n { triple(&mut cx, &mut rng, i); }
     emit_stat("triples", cx.triples);
     emit_stat("tamper_checks_oracle", cx.tamper_checks);
